@@ -145,17 +145,21 @@ def run_real(c):
     n, origin = c["n"], c.get("origin", 0)
     y = pd.Series(np.arange(n, dtype="float64") * 0.5 + 1, index=_idx(n, origin))
     if k in ("win", "single", "cutoff"):
+        pos = c.get("posargs", False)      # the documented parameter order, used positionally (pinned from the signatures)
         if k == "win":
             if c["k"] == "s":
-                cv = SlidingWindowSplitter(fh=_fh_arg(c), window_length=c["wl"], step_length=c["step"],
-                                           initial_window=c["iw"], start_with_window=c["sww"])
+                cv = SlidingWindowSplitter(_fh_arg(c), c["wl"], c["step"], c["iw"], c["sww"]) if pos else \
+                    SlidingWindowSplitter(fh=_fh_arg(c), window_length=c["wl"], step_length=c["step"],
+                                          initial_window=c["iw"], start_with_window=c["sww"])
             else:
-                cv = ExpandingWindowSplitter(fh=_fh_arg(c), initial_window=c["wl"], step_length=c["step"],
-                                             start_with_window=c["sww"])
+                cv = ExpandingWindowSplitter(_fh_arg(c), c["wl"], c["step"], c["sww"]) if pos else \
+                    ExpandingWindowSplitter(fh=_fh_arg(c), initial_window=c["wl"], step_length=c["step"],
+                                            start_with_window=c["sww"])
         elif k == "single":
-            cv = SingleWindowSplitter(fh=_fh_arg(c), window_length=c["wl"])
+            cv = SingleWindowSplitter(_fh_arg(c), c["wl"]) if pos else SingleWindowSplitter(fh=_fh_arg(c), window_length=c["wl"])
         else:
-            cv = CutoffSplitter(np.array(c["cutoffs"], dtype="int64"), fh=_fh_arg(c), window_length=c["wl"])
+            cv = CutoffSplitter(np.array(c["cutoffs"], dtype="int64"), _fh_arg(c), c["wl"]) if pos else \
+                CutoffSplitter(cutoffs=np.array(c["cutoffs"], dtype="int64"), fh=_fh_arg(c), window_length=c["wl"])
         arg = y if c.get("pass", "series") == "series" else y.index
         fh_arg, y0 = cv.fh, y.copy()
         snap = _fh_snapshot(fh_arg)
@@ -559,6 +563,7 @@ def gen_cases(tier, rng):
     for cc in cases:
         if cc["kind"] in ("win", "single", "cutoff"):
             cc.setdefault("other", rng.random() < 0.3)  # another splitter object is used in between
+            cc.setdefault("posargs", rng.random() < 0.3)
     return cases
 
 
